@@ -347,7 +347,9 @@ def shapeop_fails(ctx, case):
     D, P = x.shape[:2]
     u = UTPM(x.copy())
     fns = {
-        'reshape': ((lambda v: v.reshape(*[int(k) for k in case['shape']])) if case.get('form') == 'varargs'
+        'reshape': ((lambda v: algopy.reshape(v, tuple(case['shape']), 'C')) if case.get('form') == 'fn-order'
+                    else (lambda v: v.reshape(tuple(case['shape']), order='C')) if case.get('form') == 'method-order-kw'
+                    else (lambda v: v.reshape(*[int(k) for k in case['shape']])) if case.get('form') == 'varargs'
                     else (lambda v: v.reshape(_shape_form(case['shape'], case.get('form')))) if str(case.get('form')).startswith('method')
                     else (lambda v: algopy.reshape(v, _shape_form(case['shape'], case.get('form')))),
                     lambda a: np.reshape(a, _shape_form(case['shape'], case.get('form')))),
@@ -408,8 +410,12 @@ def shapeop_fails(ctx, case):
         ft = f(Function(UTPM(x.copy())))
         cg_.trace_off()
         traced = ft.x if isinstance(ft, Function) else ft
-    except Exception:
+    except Exception as ex:
         traced = None           # not every shape operation can be recorded
+        if op == 'reshape':
+            # every form of the shape / order arguments the polynomial itself accepts is accepted on a traced polynomial
+            return 'shapeop-traced-exception-reshape: reshape (form %s) works on the polynomial but raises %s on the traced polynomial' % (
+                case.get('form'), type(ex).__name__ + ':' + str(ex)[:60])
     if isinstance(traced, UTPM):
         if traced.data.shape != y.data.shape or not np.array_equal(traced.data, y.data, equal_nan=True):
             return 'shapeop-traced-%s: the traced call (Function operand) differs from the direct call on the same data' % op
@@ -498,6 +504,10 @@ def run(ctx):
         do(overlap_case(rng, ctx.tier), overlap_fails)
     for i in range(n):
         do(shapeop_case(rng, ctx.tier), shapeop_fails)
+    # sum over a tuple of axes with negative entries, on every run
+    for axes in ([-1], [0, -1], [-2, -1], [-3], [1, -3], [-1, 0]):
+        D_, P_ = rng.randint(1, 3), rng.randint(1, 2)
+        do({'op': 'sum', 'D': D_, 'P': P_, 'x': intdata(rng, (D_, P_, 2, 3, 4)), 'axis': axes}, shapeop_fails)
     # tril / triu of matrices whose discarded triangle holds inf / nan, on every run
     for op_ in ('tril', 'triu'):
         for k_ in (-1, 0, 1):
@@ -508,7 +518,7 @@ def run(ctx):
             do({'op': op_, 'D': D_, 'P': P_, 'x': xf, 'k': k_}, shapeop_fails)
     # every form of the shape argument of reshape on every run (the separate-integers form of the method included)
     for t in ((3, 2), (6,), (1, 2, 3), (3, -1), (-1,)):
-        for form in ['tuple', 'list', 'npints', 'method', 'method-list', 'varargs'] + (['int', 'npint', 'method-npint'] if len(t) == 1 else []):
+        for form in ['tuple', 'list', 'npints', 'method', 'method-list', 'varargs', 'fn-order', 'method-order-kw'] + (['int', 'npint', 'method-npint'] if len(t) == 1 else []):
             D_, P_ = rng.randint(1, 3), rng.randint(1, 2)
             do({'op': 'reshape', 'D': D_, 'P': P_, 'x': intdata(rng, (D_, P_, 2, 3)), 'shape': list(t), 'form': form}, shapeop_fails)
     if ctx.tier == 'thorough':
